@@ -81,7 +81,7 @@ theorem C11_mult_avx512_8 (a b : V8) (i : Fin 8) (h : (b.get i).toNat < 2^8) :
 theorem C11_square_avx512_128 (a : V8) (i : Fin 8) :
     ((square_avx512_128 a).1.get i).toNat * 2^64 + ((square_avx512_128 a).2.get i).toNat =
       (a.get i).toNat * (a.get i).toNat := by
-  rw [(square512_128_get a i).1, (square512_128_get a i).2, (s128_eq _).1, (s128_eq _).2]; exact sq128_spec _
+  rw [(square512_128_get a i).1, (square512_128_get a i).2]; exact s128_spec _
 
 /-- square_avx512 -/
 theorem C11_square_avx512 (a : V8) (i : Fin 8) :
